@@ -63,7 +63,7 @@ _G = {}
 
 def model(tier: str, wd):
     cfg = "MC_Transform1D_thorough.cfg" if tier == "thorough" else "MC_Transform1D.cfg"
-    res = tlc.run_tlc("RTransform", cfg, wd, workers=16, timeout=1500).require_ok(cfg)
+    res = tlc.run_tlc("RTransform", cfg, wd, workers=4, timeout=1500).require_ok(cfg)
     if res.status == "violation":
         raise tlc.MachineryError(
             f"RTransform.tla (Spec4) is not self-consistent: invariant(s) {res.violated} violated; last state {tlc.last_state(res)}")
@@ -89,6 +89,9 @@ class Out:
         self.grids = 0
         self.skipped_inverse = 0
         self.skipped_pairs = 0
+        self.sum_ratio = 0.0
+        self.last_expected = None
+        self.relations = 0
 
 
 # ---------------------------------------------------------------------------------------------
@@ -171,6 +174,7 @@ def _cmp(out, key, what, obs, tree, tenv, var, case):
         return None
     ok, fexp, err, tol, ratio = j
     out.n += 1
+    out.last_expected = fexp
     if ok:
         if ratio > out.max_ratio:
             out.max_ratio = ratio
@@ -201,7 +205,7 @@ def limit_at_inf(tree, tenv):
 
 
 def judge_grid(out, pre, esfx, trees, wtree, decl, tenv, xs, ws, rdom, got, exc, trim, trim_value, direction, case,
-               tlc_grid=None, expect_dom=None):
+               tlc_grid=None, expect_dom=None, sing_at=None, sing_w=None):
     """Compare a transformed grid with Transform1D of the specification.
 
     trees: F / d1 of the role; wtree: w |D(F)| as a tree in x and w; decl: declared data of the role;
@@ -230,8 +234,9 @@ def judge_grid(out, pre, esfx, trees, wtree, decl, tenv, xs, ws, rdom, got, exc,
         return
     n = len(xs)
     # declared singular ends: a reference end point whose codomain end is infinite (forward role only)
-    sing_at = {}
-    if expect_dom is None:
+    sing_given = sing_at is not None
+    sing_at = dict(sing_at or {})
+    if expect_dom is None and not sing_given:
         refs = [ev(t, tenv) for t in decl["ref"]]
         cods = [ev(t, tenv) for t in decl["cod"]]
         if direction < 0:
@@ -242,6 +247,8 @@ def judge_grid(out, pre, esfx, trees, wtree, decl, tenv, xs, ws, rdom, got, exc,
     singular = np.zeros(n, bool)
     node_tol = np.zeros(n)
     weight_tol = np.zeros(n)
+    node_exp = np.full(n, np.nan)       # the specification's nodes / signed weights (as floats), where accepted
+    weight_exp = np.full(n, np.nan)
     accepted = True
     for i in range(n):
         te = dict(tenv, x=rtx._mpf(xs[i]), w=rtx._mpf(ws[i]))
@@ -253,17 +260,37 @@ def judge_grid(out, pre, esfx, trees, wtree, decl, tenv, xs, ws, rdom, got, exc,
             out.n += 1
             if not (pts[i] == want):
                 out.viol.append((f"{kb}:singular-node", f"node x={xs[i]!r} is a singular end point of the map; its image must be {want!r} (trim_inf={trim}), got {pts[i]!r}", dict(case, index=i)))
+            # the Jacobian is infinite there: the weight of a node with w != 0 is infinite or enormous (w
+            # times the number that stands for infinity, or w times the value of the Jacobian formula one
+            # rounding error away from the pole, >= R / eps ~ 1e14 for the parameter ranges used here; the
+            # classes do not agree on trimming their derivative) - never nan, never an ordinary number.
+            # Threshold 1e10 w.
+            if ws[i] != 0:
+                out.n += 1
+                mag = abs(wts[i])
+                w_in = abs(ws[i] if sing_w is None else sing_w[i])      # weight of the grid handed to the map
+                if math.isnan(mag) or mag < 1e10 * w_in:
+                    out.viol.append((f"{kb}:singular-weight", f"node x={xs[i]!r} is a singular end point of the map (infinite Jacobian); the weight of that node is {wts[i]!r} for rule weight {ws[i]!r} (trim_inf={trim})", dict(case, index=i)))
             continue
         t = _cmp(out, f"{kb}:points", f"node {i}: transform_1d_grid(...).points[{i}] for x={xs[i]!r}", pts[i], trees["F"], te, "x", dict(case, index=i))
         if t is None:
             accepted = False
         else:
             node_tol[i] = t
+            node_exp[i] = out.last_expected
     # sign of the weights: non-negative weights stay non-negative
     out.n += 1
     neg = [i for i in range(n) if ws[i] >= 0 and (wts[i] < 0)]
     if neg:
         out.viol.append((f"{kb}:negative-weights", f"{len(neg)} of {n} weights are negative although the rule's weights are non-negative (map direction {direction}); e.g. weight[{neg[0]}] = {wts[neg[0]]!r} for rule weight {ws[neg[0]]!r}", dict(case, indices=neg[:5], weights=wts[:5].tolist())))
+    # a NEGATIVE weight of the rule stays non-positive (the Jacobian enters by its magnitude).  For a
+    # decreasing map this is the known sign defect seen from the other side: reported under the same key.
+    out.n += 1
+    pos = [i for i in range(n) if ws[i] < 0 and (wts[i] > 0)]
+    if pos:
+        what = "negative-weights" if direction < 0 else "weight-sign"
+        out.viol.append((f"{kb}:{what}", f"{len(pos)} of {n} weights changed their sign (map direction {direction}); e.g. weight[{pos[0]}] = {wts[pos[0]]!r} for rule weight {ws[pos[0]]!r}", dict(case, indices=pos[:5], weights=wts[:5].tolist())))
+        neg = neg or pos
     # magnitude of the weights: w_i |D(F)(x_i)|
     for i in range(n):
         if singular[i]:
@@ -279,6 +306,7 @@ def judge_grid(out, pre, esfx, trees, wtree, decl, tenv, xs, ws, rdom, got, exc,
             accepted = False
         else:
             weight_tol[i] = t
+            weight_exp[i] = out.last_expected
     # domain
     dom = got.domain
     out.n += 1
@@ -295,6 +323,11 @@ def judge_grid(out, pre, esfx, trees, wtree, decl, tenv, xs, ws, rdom, got, exc,
         out.viol.append((f"{kb}:domain-nan", f"domain is {(d0, d1)!r}", dict(case, domain=[d0, d1])))
     else:
         end_env = {}
+        if expect_dom is None and sing_given:
+            refs = [ev(t, tenv) for t in decl["ref"]]
+            cods = [ev(t, tenv) for t in decl["cod"]]
+            if direction < 0:
+                cods = cods[::-1]
         if expect_dom is None:
             # ordered image of (rule domain) cut to the domain of use.  An end that is a reference end
             # point of the map goes to the corresponding codomain end (TLC: EndPoints); any other end
@@ -361,6 +394,91 @@ def judge_grid(out, pre, esfx, trees, wtree, decl, tenv, xs, ws, rdom, got, exc,
             out.viol.append((f"{kb}:sum-rule", f"sum over the new grid of a positive integrand is {val!r}; the old rule applied to g(F(x))|F'(x)| gives {ref!r} (tolerance {tol:.3g})", dict(case, observed=float(val), expected=ref)))
         if not (val > 0) and not neg:
             out.viol.append((f"{kb}:nonpositive-integral", f"integral of a positive function is {val!r}", case))
+    # the same for the family of integrands of the specification (Transform1DExt.tla: sign-changing,
+    # polynomial, rational, oscillating; one product handed to integrate as two arrays); negative rule
+    # weights allowed
+    if accepted and not singular.any() and np.all(np.isfinite(pts)) and np.all(np.isfinite(wts)) and not neg \
+            and _G.get("ext") is not None and case.get("integrands", True):
+        integrand_family(out, kb, got, pts, wts, ws, node_exp, weight_exp, node_tol, weight_tol, case)
+
+
+# ---------------------------------------------------------------------------------------------
+# integrands of the specification (Transform1DExt.tla: IntegrandSeq)
+
+def np_eval(t, r):
+    """float64 value of a spec tree in the single variable r at every element of the array r."""
+    op = t["op"]
+    if op == "c":
+        return np.full(r.shape, int(t["n"]) / int(t["d"]))
+    if op == "v":
+        return r
+    if op == "neg":
+        return -np_eval(t["a"], r)
+    if op == "abs":
+        return np.abs(np_eval(t["a"], r))
+    if op in ("add", "sub", "mul", "div", "pow"):
+        a, b = np_eval(t["a"], r), np_eval(t["b"], r)
+        return a + b if op == "add" else a - b if op == "sub" else a * b if op == "mul" else a / b if op == "div" else a ** b
+    if op == "powi":
+        return np_eval(t["a"], r) ** int(t["k"])
+    f = {"exp": np.exp, "log": np.log, "sin": np.sin, "cos": np.cos, "sqrt": np.sqrt}.get(op)
+    if f is None:
+        raise tlc.MachineryError(f"np_eval: node {op!r}")
+    return f(np_eval(t["a"], r))
+
+
+def integrand_items(ext):
+    """[(name, positive, [(g, dg), ...])]: the integrands of the specification, plus the product of the
+    first and the fifth one handed to integrate as two arrays."""
+    ig = ext["integrands"]
+    items = [(d["name"], bool(d["positive"]), [(d["g"], d["dg"])]) for d in ig]
+    a, b = ig[0], ig[4]
+    items.append((f"({a['name']})*({b['name']}) as two arrays", False, [(a["g"], a["dg"]), (b["g"], b["dg"])]))
+    return items
+
+
+def integrand_family(out, kb, got, pts, wts, ws, node_exp, weight_exp, node_tol, weight_tol, case):
+    """sum_new g(r_j) w'_j = sum_old w_i |D(F)(x_i)| g(F(x_i)) for every integrand g of the specification.
+
+    node_exp / weight_exp: F(x_i) and w_i |D(F)(x_i)| of the specification (50-digit values rounded to
+    double; grids whose nodes and weights were all accepted).  The right-hand side is evaluated in double
+    precision: its rounding error, ~1e-16 sum_i |W_i| (|g| + |g' F_i|), is seven orders below the budget.
+    Error budget (first order, factor 4): the nodes were accepted within node_tol_i (>= 1e-9 |F_i|) and the
+    weights within weight_tol_i, so the observed sum may differ from the specification's by
+    sum_i weight_tol_i |g(r_i)| + |w'_i| |g'(r_i)| node_tol_i (g' = D(g) of the specification), plus the
+    rounding of the sums, 1e-9 sum_i |w'_i g(r_i)|."""
+    if not (np.all(np.isfinite(node_exp)) and np.all(np.isfinite(weight_exp))):
+        return
+    nonneg = bool(np.all(np.asarray(ws) >= 0) and np.any(np.asarray(ws) > 0))
+    for name, positive, parts in _G["integrand_items"]:
+        with np.errstate(all="ignore"):
+            vals = [np.asarray(np_eval(g, pts), dtype=float) for g, _ in parts]
+            dvals = [np.asarray(np_eval(dg, pts), dtype=float) for _, dg in parts]
+            refs = [np.asarray(np_eval(g, node_exp), dtype=float) for g, _ in parts]
+        if not all(np.all(np.isfinite(v)) for v in vals + dvals + refs):
+            continue
+        val, exc = rtx.call(got.integrate, *vals)
+        out.n += 1
+        out.keys.add((kb, "sum", name, case.get("tag"), case.get("trim_inf")))
+        if exc is not None:
+            out.viol.append((f"{kb}:integrate:exception", f"integrate raised {type(exc).__name__}: {exc} for the integrand {name}", case))
+            return
+        terms = weight_exp * np.prod(refs, axis=0)
+        ref = math.fsum(terms.tolist())
+        scale = float(np.sum(np.abs(terms)))
+        gabs = np.abs(np.prod(vals, axis=0))
+        if len(parts) == 1:
+            dabs = np.abs(dvals[0])
+        else:
+            dabs = np.abs(dvals[0] * vals[1]) + np.abs(vals[0] * dvals[1])
+        tol = 1e-9 * max(scale, float(np.sum(np.abs(wts) * gabs))) + 4.0 * float(np.sum(weight_tol * gabs + np.abs(wts) * dabs * node_tol))
+        err = abs(float(val) - ref)
+        if err <= tol and tol > 0:
+            out.sum_ratio = max(out.sum_ratio, err / tol)
+        if not err <= tol:
+            out.viol.append((f"{kb}:sum-rule[{name}]", f"sum over the new grid of g(r) = {name} is {float(val)!r}; the old rule applied to g(F(x))|F'(x)| gives {ref!r} (tolerance {tol:.3g})", dict(case, integrand=name, observed=float(val), expected=ref)))
+        elif positive and nonneg and ref > 1e-250 and not (float(val) > 0):     # (not when every term underflows)
+            out.viol.append((f"{kb}:nonpositive-integral", f"integral of the positive function {name} is {float(val)!r}", dict(case, integrand=name)))
 
 
 # ---------------------------------------------------------------------------------------------
@@ -424,9 +542,11 @@ def run_pair(out, inst, fenv, expo, rule_name, make_rule, tag, trim_value, direc
         if exc is not None:
             out.viol.append((f"transform_1d_grid:{lbl}{esfx}:constructor", f"{type(exc).__name__}: {exc}", case))
             return
+        snap = snapshot(rule)
         got, exc = rtx.call(tf.transform_1d_grid, rule)
         judge_grid(out, lbl, esfx, inst.trees, inst.wtree, inst.decl, tenv, xs, ws, rdom, got, exc, trim, trim_value,
                    direction, case, tlc_grid)
+        relations(out, f"transform_1d_grid:{lbl}{esfx}", tf, rule, snap, got, exc, case)
         try:
             p1 = np.asarray(got.points, float)
             w1 = np.abs(np.asarray(got.weights, float))
@@ -469,6 +589,366 @@ def run_pair(out, inst, fenv, expo, rule_name, make_rule, tag, trim_value, direc
             continue
         judge_grid(out, f"InverseRTransform({lbl})", esfx, inst.inv_trees, inst.inv_wtree, inst.inv_decl, tenv, p1, w1, d1,
                    got2, exc, None, trim_value, direction, dict(case, object="InverseRTransform"), None, expect_dom=sorted(ends))
+
+
+def snapshot(rule):
+    return (np.array(rule.points, copy=True), np.array(rule.weights, copy=True), tuple(rule.domain),
+            rule.points.dtype, rule.weights.dtype)
+
+
+def same_array(a, b):
+    a, b = np.asarray(a), np.asarray(b)
+    return a.shape == b.shape and a.dtype == b.dtype and bool(np.array_equal(a, b, equal_nan=True))
+
+
+def relations(out, kb, tf, rule, snap, got, exc, case):
+    """Harness-only relations (no model needed): the call leaves the rule it was given untouched, and
+    calling again with the same objects returns the same grid (an object that took b from its first
+    grid keeps it)."""
+    out.relations += 1
+    out.n += 1
+    p0, w0, d0, tp, tw = snap
+    try:
+        same = same_array(rule.points, p0) and same_array(rule.weights, w0) and tuple(rule.domain) == d0 \
+            and rule.points.dtype == tp and rule.weights.dtype == tw
+    except Exception:  # noqa: BLE001
+        same = False
+    if not same:
+        out.viol.append((f"{kb}:input-modified", f"transform_1d_grid changed the grid it was given: points {np.asarray(rule.points).tolist()[:4]} (were {p0.tolist()[:4]}), weights {np.asarray(rule.weights).tolist()[:4]} (were {w0.tolist()[:4]}), domain {rule.domain!r} (was {d0!r})", case))
+        return
+    if exc is not None:
+        return
+    got2, exc2 = rtx.call(tf.transform_1d_grid, rule)
+    out.n += 1
+    if exc2 is not None:
+        out.viol.append((f"{kb}:not-repeatable", f"the second call with the same objects raised {type(exc2).__name__}: {exc2}", case))
+        return
+    try:
+        same = same_array(got.points, got2.points) and same_array(got.weights, got2.weights) \
+            and same_array(np.asarray(got.domain, float), np.asarray(got2.domain, float))
+    except Exception:  # noqa: BLE001
+        same = False
+    if not same:
+        out.viol.append((f"{kb}:not-repeatable", f"the second call with the same objects returned a different grid: points {np.asarray(got2.points).tolist()[:4]} vs {np.asarray(got.points).tolist()[:4]}, weights {np.asarray(got2.weights).tolist()[:4]} vs {np.asarray(got.weights).tolist()[:4]}, domain {got2.domain!r} vs {got.domain!r}", case))
+
+
+# ---------------------------------------------------------------------------------------------
+# second model (Transform1DExt.tla): hand-made rules, chains, object reuse
+
+class Ext:
+    """What the second TLC run emitted: hand rules, integrands, composed trees, HAND / CHAIN / REUSE records."""
+
+    def __init__(self, res, path):
+        with open(path) as f:
+            d = json.load(f)
+        self.hand = d["hand"]
+        self.integrands = d["integrands"]
+        self.chain = d["chain"]
+        self.inner_tree = d["inner_tree"]
+        self.chain_rules = d["chain_rules"]
+        self.reuse_rules = d["reuse_rules"]
+        self.pullback = d["pullback"]
+        self.params5 = [[rtx._env(e) for e in ps] for ps in d["params5"]]
+        self.recs = {}
+        for tag in ("HAND", "CHAIN", "REUSE"):
+            for t in rtx.tagged(res.stdout, tag):
+                self.recs.setdefault((t[1], t[2]), []).append(t)
+
+    def __getitem__(self, k):       # the emission as a mapping (integrand_items)
+        return getattr(self, k)
+
+
+def model_ext(tier: str, wd):
+    cfg = "MC_Transform1DExt_thorough.cfg" if tier == "thorough" else "MC_Transform1DExt.cfg"
+    res = tlc.run_tlc("Transform1DExt", cfg, wd, workers=4, timeout=1500).require_ok(cfg)
+    if res.status == "violation":
+        raise tlc.MachineryError(
+            f"Transform1DExt.tla (Spec5) is not self-consistent: invariant(s) {res.violated} violated; last state {tlc.last_state(res)}")
+    return res, Ext(res, wd / "transform1d_ext.json")
+
+
+def _q(v):
+    return Fraction(v[0], v[1])
+
+
+def cross_check(out, label, nodes_t, weights_t, ftree, wtree, qenv, xq, wq):
+    """The evaluator reproduces the exact nodes / weights TLC printed (machinery, not a verdict)."""
+    for i in range(len(xq)):
+        for what, t, tree in (("node", nodes_t[i], ftree), ("weight", weights_t[i], wtree)):
+            tv = rtx.dec(t)
+            if tv is None:
+                out.tlc_undecided += 1
+                continue
+            mine = ev(tree, rtx.tree_env({}, **qenv, x=xq[i], w=wq[i]))
+            out.tlc_values += 1
+            if mine is None:
+                if isinstance(tv, Fraction) or not mp.isinf(tv):
+                    out.mach.append(f"{label} {what} {i}: TLC {tv}, evaluator singular")
+                continue
+            a = rtx._mpf(tv)
+            if not (a == mine or abs(a - mine) <= mp.mpf(10) ** -35 * max(1, abs(a))):
+                out.mach.append(f"{label} {what} {i}: TLC {a}, evaluator {mine}, env {qenv}")
+
+
+HAND_VARIANTS = ("float64", "int-nodes", "longdouble", "list-domain", "ndarray-domain", "read-only", "strided")
+
+
+def hand_grid(h, variant):
+    """A hand-made OneDGrid with the nodes / weights / domain of hand rule h of the specification."""
+    from grid.basegrid import OneDGrid
+    xs = np.array([float(_q(v)) for v in h["nodes"]])
+    ws = np.array([float(_q(v)) for v in h["weights"]])
+    dom = tuple(float(ev(t, {})) for t in h["domain"])
+    if variant == "int-nodes":
+        if not all(_q(v).denominator == 1 for v in h["nodes"]):
+            return None
+        xs = np.array([int(_q(v)) for v in h["nodes"]])
+        dom = tuple(int(v) if math.isfinite(v) and float(v).is_integer() else v for v in dom)
+    elif variant == "longdouble":
+        xs, ws = xs.astype(np.longdouble), ws.astype(np.longdouble)
+    elif variant == "list-domain":
+        dom = list(dom)
+    elif variant == "ndarray-domain":
+        dom = np.array(dom)
+    elif variant == "read-only":
+        xs.flags.writeable = False
+        ws.flags.writeable = False
+    elif variant == "strided":
+        xs = np.repeat(xs, 2)[::2]
+        ws = np.column_stack([ws, -ws])[:, 0]
+    return OneDGrid(xs, ws, dom)
+
+
+def typed_env(fenv, expo, ints):
+    """Parameter values as Python floats, or as Python ints where integral (ints=True)."""
+    if not ints:
+        return dict(fenv), expo
+    e = {k: (int(v) if float(v).is_integer() else v) for k, v in fenv.items()}
+    return e, (int(expo) if expo is not None and float(expo).is_integer() else expo)
+
+
+def job_ext(arg):
+    """All HAND / CHAIN / REUSE records of one (instance, parameter set) of the second model."""
+    from grid.rtransform import LinearFiniteRTransform
+    j, p = arg
+    em, ext, tier = _G["em"], _G["ext"], _G["tier"]
+    inst = em.instances[j - 1]
+    out = Out()
+    env = ext.params5[j - 1][p - 1]
+    fenv0 = rtx.float_env(env)
+    expo = inst.ip if inst.ename else None
+    lbl = LIB[inst.cls]
+    esfx = _esfx(inst, expo)
+    integral = all(v.denominator == 1 for v in env.values()) and len(env) > 0
+    thorough = tier == "thorough"
+    for rec in ext.recs.get((j, p), []):
+        if rec[0] == "HAND":
+            _, _, _, hidx, nodes_t, weights_t, dom_t, direction = rec
+            h = ext.hand[hidx - 1]
+            xq = [_q(v) for v in h["nodes"]]
+            wq = [_q(v) for v in h["weights"]]
+            qenv = dict(env)
+            if inst.binfer and "b" not in qenv:
+                qenv["b"] = max(xq)
+            cross_check(out, f"{inst.label} hand rule {h['name']}", nodes_t, weights_t, inst.trees["F"], inst.wtree, qenv, xq, wq)
+            extra = [v for v in HAND_VARIANTS[1:] if hand_grid(h, v) is not None]
+            variants = ["float64"] + (extra if thorough else [extra[(j + p + hidx) % len(extra)]])
+            for variant in variants:
+                for ints in ((False, True) if integral and variant == "float64" else (False,)):
+                    # plain float64 arrays: trimming on and off; every other variant with the DEFAULT trim
+                    # setting (keyword omitted; judged as trimming on); integer-typed parameters: trimming on
+                    trims = ((True,) if ints else (True, False) if variant == "float64" else ("default",)) if inst.trims else (None,)
+                    for trim in trims:
+                        rule = hand_grid(h, variant)
+                        xs = np.array([float(v) for v in xq])
+                        ws = np.array([float(v) for v in wq])
+                        rdom = tuple(float(ev(t, {})) for t in h["domain"])
+                        tenv, _ = _tenv(inst, fenv0, expo, float(xs.max()))
+                        pe, pexpo = typed_env(fenv0, expo, ints)
+                        case = {"class": lbl, "params": fenv0, "exponent": expo, "trim_inf": trim, "rule": h["name"], "n": len(xq),
+                                "tag": f"hand:{p}:{hidx}:{variant}{':int-params' if ints else ''}", "hand_rule": hidx, "variant": variant,
+                                "int_params": ints}
+                        tf, exc = rtx.call(rtx.make_tf, inst, pe, pexpo, None if trim == "default" else trim)
+                        if exc is not None:
+                            out.viol.append((f"transform_1d_grid:{lbl}{esfx}:constructor", f"{type(exc).__name__}: {exc}", case))
+                            continue
+                        snap = snapshot(rule)
+                        got, exc = rtx.call(tf.transform_1d_grid, rule)
+                        judge_grid(out, lbl, esfx, inst.trees, inst.wtree, inst.decl, tenv, xs, ws, rdom, got, exc,
+                                   True if trim == "default" else trim, em.trim, direction, case)
+                        relations(out, f"transform_1d_grid:{lbl}{esfx}", tf, rule, snap, got, exc, case)
+                        if len(out.samples) < 1 and exc is None and variant != "float64":
+                            out.samples.append(dict(case, points=np.asarray(got.points, float)[:3].tolist(),
+                                                    weights=np.asarray(got.weights, float)[:3].tolist(), domain=[float(v) for v in got.domain]))
+        elif rec[0] == "CHAIN":
+            _, _, _, q, c, nodes_t, weights_t, dom_t, direction = rec
+            r = ext.chain_rules[q - 1]
+            ct = ext.chain[j - 1]
+            lo, hi = (_q(v) for v in ct["inner"][c - 1])
+            rule, exc = lib_rule(r["name"], r["n"])
+            if exc is not None:
+                continue
+            spec_rule = next((s for s in em.rules if s["name"] == r["name"] and s["n"] == r["n"]), None)
+            qenv = dict(env, lo=lo, hi=hi)
+            if inst.binfer and "b" not in qenv and spec_rule is not None:
+                qenv["b"] = max(rtx.ev_exact(ext.inner_tree, {"lo": lo, "hi": hi, "x": _q(v)}) for v in spec_rule["nodes"])
+            if spec_rule is not None:
+                cross_check(out, f"{inst.label} o LinearFinite({lo},{hi}) {r['name']}({r['n']})", nodes_t, weights_t, ct["F"], ct["wtree"],
+                            qenv, [_q(v) for v in spec_rule["nodes"]], [_q(v) for v in spec_rule["weights"]])
+            for trim in ((True, False) if inst.trims else (None,)):
+                run_chain(out, inst, fenv0, expo, float(lo), float(hi), lambda r=r: lib_rule(r["name"], r["n"])[0], r["name"],
+                          f"chain:{p}:{q}:{c}", trim, em.trim, direction)
+        elif rec[0] == "REUSE":
+            _, _, _, q1, q2, b_t, nodes_t, weights_t, dom_t, direction = rec
+            r1, r2 = ext.reuse_rules[q1 - 1], ext.reuse_rules[q2 - 1]
+            b = _q(b_t)
+            spec2 = next((s for s in em.rules if s["name"] == r2["name"] and s["n"] == r2["n"]), None)
+            if spec2 is not None:
+                cross_check(out, f"{inst.label} reuse {r1['n']}->{r2['n']}", nodes_t, weights_t, inst.trees["F"], inst.wtree, dict(env, b=b),
+                            [_q(v) for v in spec2["nodes"]], [_q(v) for v in spec2["weights"]])
+            run_reuse(out, inst, fenv0, expo, r1, r2, float(b), f"reuse:{p}:{q1}:{q2}", em.trim, direction)
+    return out
+
+
+def chain_domain(inst, tenv, lo, hi, direction):
+    """(expected domain, singular x) of outer o LinearFinite(lo, hi) on [-1, 1]: the images of lo and hi under the
+    outer map (a reference end point goes to its codomain end), ordered; x = -1 / +1 is singular when lo / hi
+    is a reference end point of the outer map whose image is infinite."""
+    refs = [ev(t, tenv) for t in inst.decl["ref"]]
+    cods = [ev(t, tenv) for t in inst.decl["cod"]]
+    if direction < 0:
+        cods = cods[::-1]
+    ends, sing = [], {}
+    for xend, e_ in ((-1.0, rtx._mpf(lo)), (1.0, rtx._mpf(hi))):
+        v = None
+        for rf, cd in zip(refs, cods):
+            if rf is not None and e_ == rf:
+                v = cd
+        if v is None:
+            v = ev(inst.trees["F"], dict(tenv, x=e_))
+        if v is None:
+            return None, None
+        if mp.isinf(v):
+            sing[xend] = 1 if v > 0 else -1
+        ends.append(v)
+    return sorted(ends), sing
+
+
+def run_chain(out, inst, fenv, expo, lo, hi, make_rule, rule_name, tag, trim, trim_value, direction):
+    """outer.transform_1d_grid(LinearFiniteRTransform(lo, hi).transform_1d_grid(rule)) against the composed tree."""
+    from grid.rtransform import LinearFiniteRTransform
+    ext = _G["ext"]
+    ct = ext.chain[inst.idx - 1]
+    lbl = LIB[inst.cls]
+    esfx = _esfx(inst, expo)
+    rule = make_rule()
+    xs = np.asarray(rule.points, dtype=float).copy()
+    ws = np.asarray(rule.weights, dtype=float).copy()
+    case = {"class": lbl, "params": fenv, "exponent": expo, "trim_inf": trim, "rule": rule_name, "n": int(rule.size), "tag": tag,
+            "chain": {"inner": "LinearFiniteRTransform", "rmin": lo, "rmax": hi}, "integrands": False}
+    inner, exc = rtx.call(LinearFiniteRTransform, lo, hi)
+    mid, exc2 = rtx.call(lambda: inner.transform_1d_grid(rule)) if exc is None else (None, exc)
+    if exc2 is not None:
+        out.viol.append(("transform_1d_grid:LinearFiniteRTransform:exception", f"inner map of a chain raised {type(exc2).__name__}: {exc2}", case))
+        return
+    # b of a b-scaled outer map given without b: the largest node of the INTERMEDIATE grid (exact value)
+    bmax = None
+    if inst.binfer and "b" not in fenv:
+        bmax = max(ev(ext.inner_tree, rtx.tree_env({}, lo=lo, hi=hi, x=float(x))) for x in xs)
+    tenv, _ = _tenv(inst, fenv, expo, bmax)
+    tenv = dict(tenv, lo=rtx._mpf(lo), hi=rtx._mpf(hi))
+    ulo, uhi = (ev(t, tenv) for t in inst.decl["use"])
+    mids = [ev(ext.inner_tree, dict(tenv, x=rtx._mpf(float(x)))) for x in xs]
+    if not (min(mids) >= ulo and max(mids) <= uhi):
+        out.skipped_pairs += 1
+        return
+    expect_dom, sing = chain_domain(inst, tenv, lo, hi, direction)
+    if expect_dom is None:
+        out.skipped_pairs += 1
+        return
+    tf, exc = rtx.call(rtx.make_tf, inst, fenv, expo, trim)
+    if exc is not None:
+        out.viol.append((f"transform_1d_grid:{lbl}{esfx}:constructor", f"{type(exc).__name__}: {exc}", case))
+        return
+    snap = snapshot(mid)
+    got, exc = rtx.call(tf.transform_1d_grid, mid)
+    judge_grid(out, lbl, esfx, {"F": ct["F"], "d1": ct["d1"]}, ct["wtree"], inst.decl, tenv, xs, ws, (-1.0, 1.0), got, exc, trim,
+               trim_value, direction, case, None, expect_dom=expect_dom, sing_at=sing,
+               sing_w=np.abs(np.asarray(mid.weights, dtype=float)))
+    relations(out, f"transform_1d_grid:{lbl}{esfx}", tf, mid, snap, got, exc, case)
+
+
+def run_reuse(out, inst, fenv, expo, r1, r2, b, tag, trim_value, direction):
+    """One transform object built WITHOUT b transforms rule 1, then rule 2: the second grid is mapped with the b
+    of the first (state machine PickFirst / PickSecond of Transform1DExt.tla)."""
+    lbl = LIB[inst.cls]
+    esfx = _esfx(inst, expo)
+    kb = f"transform_1d_grid:{lbl}{esfx}"
+    case = {"class": lbl, "params": fenv, "exponent": expo, "trim_inf": None, "rule": r2["name"], "n": r2["n"], "tag": tag,
+            "first_rule": dict(r1), "b_of_first_grid": b}
+    tf, exc = rtx.call(rtx.make_tf, inst, fenv, expo, None)
+    if exc is not None:
+        out.viol.append((f"{kb}:constructor", f"{type(exc).__name__}: {exc}", case))
+        return
+    rule1 = lib_rule(r1["name"], r1["n"])[0]
+    rule2 = lib_rule(r2["name"], r2["n"])[0]
+    g1, exc = rtx.call(tf.transform_1d_grid, rule1)
+    if exc is not None:
+        return          # reported by the first model's replay
+    out.n += 1
+    try:
+        bobs = float(tf.b)
+    except Exception:  # noqa: BLE001
+        bobs = None
+    if bobs != b:
+        out.viol.append((f"{kb}:inferred-b", f"after transforming {r1['name']}({r1['n']}) an object built without b has b = {getattr(tf, 'b', None)!r}; the largest node of its first grid is {b!r}", case))
+    xs = np.asarray(rule2.points, dtype=float).copy()
+    ws = np.asarray(rule2.weights, dtype=float).copy()
+    tenv, _ = _tenv(inst, fenv, expo, b)
+    snap = snapshot(rule2)
+    got, exc = rtx.call(tf.transform_1d_grid, rule2)
+    judge_grid(out, lbl, esfx, inst.trees, inst.wtree, inst.decl, tenv, xs, ws, tuple(float(v) for v in rule2.domain), got, exc,
+               None, trim_value, direction, case)
+    relations(out, kb, tf, rule2, snap, got, exc, case)
+    # back to the first rule: the same grid as the first time
+    g1b, exc = rtx.call(tf.transform_1d_grid, rule1)
+    out.n += 1
+    if exc is not None or not (same_array(g1.points, g1b.points) and same_array(g1.weights, g1b.weights)):
+        out.viol.append((f"{kb}:not-repeatable", f"transforming {r1['name']}({r1['n']}) again after {r2['name']}({r2['n']}) with the same object gives a different grid ({exc!r})", case))
+
+
+def job_chain_random(arg):
+    """Library rules (non-rational nodes) through LinearFinite(lo, hi) with float lo, hi, then a drawn outer map."""
+    from grid.rtransform import LinearFiniteRTransform
+    import grid.onedgrid as od
+    j, rname, n, seed = arg
+    em = _G["em"]
+    inst = em.instances[j - 1]
+    out = Out()
+    rng = random.Random(seed)
+    unit = inst.cls in ("Becke", "LinearFinite", "MultiExp", "Knowles", "Handy", "HandyMod")
+    if unit:
+        lo = rng.choice([-1.0, rng.uniform(-0.9, 0.2)])
+        hi = rng.choice([1.0, rng.uniform(lo + 0.3, 0.95)])
+    else:
+        lo = rng.choice([0.0, rng.uniform(0.05, 1.0)])
+        hi = lo + rng.uniform(0.5, 6.0)
+    mk = lambda: getattr(od, rname)(n)      # noqa: E731
+    mid, exc = rtx.call(lambda: LinearFiniteRTransform(lo, hi).transform_1d_grid(mk()))
+    if exc is not None:
+        return out
+    d = draw_env(rng, inst, mid)
+    if d is None:
+        return out
+    fenv, expo = d
+    bmax = float(np.max(mid.points))
+    tenv, _ = _tenv(inst, fenv, expo, bmax)
+    direction = map_direction(inst, tenv)
+    if direction == 0:
+        return out
+    for trim in ((True, False) if inst.trims else (None,)):
+        run_chain(out, inst, fenv, expo, lo, hi, mk, rname, f"chain-random:{seed}", trim, em.trim, direction)
+    return out
 
 
 def job_tlc(arg):
@@ -611,12 +1091,13 @@ def gl_obligations(rep, em, tier, rng):
     rep.set("gl_max_err_over_tolerance", worst)
 
 
-def check(rep: Report, tier: str, modelled) -> None:
+def check(rep: Report, tier: str, modelled, ext=None) -> None:
     res, em, grids = modelled
     rng = random.Random(rep.seed)
     rules_ok = bind_rules(rep, em)
     other = other_rules(tier, rng)
-    _G.update(em=em, grids=grids, rules_ok=rules_ok, other=other, tier=tier)
+    _G.update(em=em, grids=grids, rules_ok=rules_ok, other=other, tier=tier, ext=ext,
+              integrand_items=integrand_items(ext) if ext is not None else [])
     jobs = sorted({(j, p) for (j, p, q) in grids})
     rjobs = []
     nper = 1 if tier == "quick" else 4
@@ -629,10 +1110,24 @@ def check(rep: Report, tier: str, modelled) -> None:
                 continue
             for s in range(nper):
                 rjobs.append((i.idx, ridx, rep.seed * 1000003 + i.idx * 10007 + ridx * 101 + s))
+    # second model: hand-made rules, chains, object reuse (+ chains of library rules with float intervals)
+    ejobs, cjobs = [], []
+    if ext is not None:
+        ejobs = sorted(ext.recs)
+        crules = [("GaussLegendre", 5), ("ClenshawCurtis", 6)] if tier == "quick" else \
+            [("GaussLegendre", 5), ("GaussLegendre", 12), ("ClenshawCurtis", 6), ("GaussChebyshev", 9), ("Trapezoidal", 7)]
+        for i in em.instances:
+            if tier == "quick" and i.ip not in (0, 1, 3):
+                continue
+            for k, (rname, n) in enumerate(crules):
+                for s_ in range(1 if tier == "quick" else 3):
+                    cjobs.append((i.idx, rname, n, rep.seed * 1000003 + i.idx * 10007 + k * 131 + s_ + 77))
     import multiprocessing as mpc
-    with mpc.get_context("fork").Pool(16) as pool:
+    with mpc.get_context("fork").Pool(8) as pool:
         outs = pool.map(job_tlc, jobs, chunksize=1)
         outs += pool.map(job_random, rjobs, chunksize=8)
+        eouts = pool.map(job_ext, ejobs, chunksize=1) + pool.map(job_chain_random, cjobs, chunksize=4)
+    outs += eouts
     mach = [m for o in outs for m in o.mach]
     if mach:
         raise tlc.MachineryError("specification / evaluator inconsistency (not a verdict about the library):\n" + "\n".join(mach[:20]))
@@ -643,6 +1138,26 @@ def check(rep: Report, tier: str, modelled) -> None:
         raise tlc.MachineryError("vacuity: TLC met no singular end node")
     if not any(em.instances[j - 1].binfer and "b" not in em.instances[j - 1].params4[p - 1] for (j, p, q) in grids):
         raise tlc.MachineryError("vacuity: TLC met no grid with inferred b")
+    if ext is not None:
+        allrecs = [t for ts in ext.recs.values() for t in ts]
+        hands = [t for t in allrecs if t[0] == "HAND"]
+        if not any(any(len(v) == 2 and isinstance(v[0], int) and v[0] < 0 for v in t[5]) for t in hands):
+            raise tlc.MachineryError("vacuity: TLC met no negative weight of a hand-made rule")
+        if not any(ext.hand[t[3] - 1]["permuted"] for t in hands) or not any(len(t[4]) == 1 for t in hands):
+            raise tlc.MachineryError("vacuity: TLC met no permuted / single-node hand-made rule")
+        if not any(t[0] == "CHAIN" and any(v and v[0] == "pinf" for v in t[5]) for t in allrecs):
+            raise tlc.MachineryError("vacuity: TLC met no chain with a singular end node")
+        if not any(t[0] == "REUSE" and ext.reuse_rules[t[4] - 1]["n"] > ext.reuse_rules[t[3] - 1]["n"] for t in allrecs):
+            raise tlc.MachineryError("vacuity: TLC met no second grid longer than the first (reuse of an inferred b)")
+        rep.set("ext_hand_grids", len(hands))
+        rep.set("ext_chain_grids", sum(1 for t in allrecs if t[0] == "CHAIN"))
+        rep.set("ext_reuse_sequences", sum(1 for t in allrecs if t[0] == "REUSE"))
+        rep.set("ext_random_chains", len(cjobs))
+        rep.set("ext_grids_replayed", sum(o.grids for o in eouts))
+        rep.set("ext_hand_rules", [h["name"] for h in ext.hand])
+        rep.set("ext_integrands", [name for name, _, _ in _G["integrand_items"]])
+        rep.set("sum_rule_max_err_over_tolerance", max([o.sum_ratio for o in outs] + [0.0]))
+        rep.set("relations_checked", sum(o.relations for o in outs))
     gl_obligations(rep, em, tier, rng)
     keys = set()
     for o in outs:
@@ -672,12 +1187,22 @@ def check(rep: Report, tier: str, modelled) -> None:
                     "specification; distinct = distinct (object, quantity, pair tag, index)")
 
 
+def models(tier: str, name: str):
+    """Both TLC runs, side by side (4 workers each)."""
+    from concurrent.futures import ThreadPoolExecutor
+    wd, wd2 = tlc.scratch(name), tlc.scratch(name + "-ext")
+    with ThreadPoolExecutor(2) as ex:
+        f1 = ex.submit(model, tier, wd)
+        f2 = ex.submit(model_ext, tier, wd2)
+        return f1.result(), f2.result()
+
+
 def run(tier: str) -> int:
     rep = Report(PROP, tier, "model_checking")
-    wd = tlc.scratch(f"{PROP}-{tier}")
-    modelled = model(tier, wd)
+    modelled, (res2, ext) = models(tier, f"{PROP}-{tier}")
     rep.tlc(modelled[0], "MC_Transform1D" + ("_thorough" if tier == "thorough" else ""))
-    check(rep, tier, modelled)
+    rep.tlc(res2, "MC_Transform1DExt" + ("_thorough" if tier == "thorough" else ""))
+    check(rep, tier, modelled, ext)
     rep.set("exhaustive", False)
     rep.assume("nodes and weights of the library's non-rational rules are taken as given (property C01 judges them)")
     rep.assume("vf/expr_eval.py (generic tree evaluator) is trusted; cross-checked against every exact value TLC printed")
@@ -692,6 +1217,30 @@ def replay(path: str) -> int:
     c = v.get("case") or {}
     if "class" not in c or "rule" not in c:
         return run("quick")
+    tag = str(c.get("tag", ""))
+    if tag.split(":")[0] in ("hand", "chain", "reuse", "chain-random") or "variant" in c:
+        # a case of the second model: replay the block of records (or the drawn chain) it belongs to
+        tier = v.get("tier", "quick")
+        modelled, (_, ext) = models(tier, f"{PROP}-replay")
+        em = modelled[1]
+        _G.update(em=em, ext=ext, tier=tier, integrand_items=integrand_items(ext))
+        cls = next(k for k, n in LIB.items() if n == c["class"])
+        expo = c.get("exponent")
+        outs = []
+        if tag.startswith("chain-random"):
+            seed = int(tag.split(":")[1])
+            for i in em.instances:
+                if i.cls == cls:
+                    outs.append(job_chain_random((i.idx, c["rule"], c["n"], seed)))
+        else:
+            pidx = int(tag.split(":")[1])
+            for i in em.instances:
+                if i.cls == cls and (not i.ename or (expo is not None and float(expo).is_integer() and i.ip == int(expo))):
+                    outs.append(job_ext((i.idx, pidx)))
+        keys = sorted({k for o in outs for k, _, _ in o.viol})
+        for k in keys:
+            print("replay:", k)
+        return 1 if v.get("key") in keys or (keys and not v.get("key")) else 0
     wd = tlc.scratch(f"{PROP}-replay")
     _, em, _ = model("quick", wd)
     cls = next(k for k, n in LIB.items() if n == c["class"])
@@ -818,18 +1367,185 @@ def _m9(rt):
     rt.BaseTransform.transform_1d_grid = t1d
 
 
+# ---- mutants for the clauses of the second model and the harness-only relations ----------------
+
+def _bg():
+    import grid.basegrid as bg
+    return bg
+
+
+@_mutant("integrate takes the magnitude of the integrand (invisible for positive integrands)")
+def _m10(rt):
+    bg = _bg()
+    orig = bg.Grid.integrate
+
+    def bad(self, *value_arrays):
+        return orig(self, *(np.abs(a) for a in value_arrays))
+    bg.Grid.integrate = bad
+
+
+@_mutant("integrate uses only the first of several value arrays")
+def _m11(rt):
+    bg = _bg()
+    orig = bg.Grid.integrate
+
+    def bad(self, *value_arrays):
+        return orig(self, value_arrays[0])
+    bg.Grid.integrate = bad
+
+
+@_mutant("nodes are sorted before they are mapped, weights keep their order (invisible for ascending rules)")
+def _m12(rt):
+    def body(self, g):
+        x = np.sort(g.points)
+        return self.transform(x), self.deriv(x) * g.weights, tuple(np.sort(self.transform(np.array(g.domain))))
+    rt.BaseTransform.transform_1d_grid = _t1d(body)
+
+
+@_mutant("magnitude of the whole product deriv * weights (negative rule weights become positive)")
+def _m13(rt):
+    def body(self, g):
+        return self.transform(g.points), np.abs(self.deriv(g.points) * g.weights), tuple(np.sort(self.transform(np.array(g.domain))))
+    rt.BaseTransform.transform_1d_grid = _t1d(body)
+
+
+@_mutant("nodes of weight zero are dropped from the new grid")
+def _m14(rt):
+    def body(self, g):
+        keep = g.weights != 0
+        return self.transform(g.points)[keep], (self.deriv(g.points) * g.weights)[keep], tuple(np.sort(self.transform(np.array(g.domain))))
+    rt.BaseTransform.transform_1d_grid = _t1d(body)
+
+
+@_mutant("equal nodes are merged (np.unique), their weights added")
+def _m15(rt):
+    def body(self, g):
+        x, inv = np.unique(g.points, return_inverse=True)
+        if x.size == g.points.size:
+            x, w = g.points, g.weights
+        else:
+            w = np.zeros(x.size)
+            np.add.at(w, inv, g.weights)
+        return self.transform(x), self.deriv(x) * w, tuple(np.sort(self.transform(np.array(g.domain))))
+    rt.BaseTransform.transform_1d_grid = _t1d(body)
+
+
+@_mutant("a grid with a single node is rejected")
+def _m16(rt):
+    def body(self, g):
+        if g.size < 2:
+            raise ValueError("need at least two points")
+        return self.transform(g.points), self.deriv(g.points) * g.weights, tuple(np.sort(self.transform(np.array(g.domain))))
+    rt.BaseTransform.transform_1d_grid = _t1d(body)
+
+
+@_mutant("an omitted b is taken from EVERY grid again (not kept from the first one)")
+def _m17(rt):
+    def bad(self, x):
+        if getattr(self, "_b_given", None) is None:
+            self._b_given = self._b is not None
+        if not self._b_given:
+            self._b = np.max(x)
+    for c in (rt.LinearInfiniteRTransform, rt.ExpRTransform, rt.PowerRTransform):
+        c.set_maximum_parameter_b = bad
+
+
+@_mutant("the weights of the grid handed in are scaled in place")
+def _m18(rt):
+    def body(self, g):
+        w = g.weights
+        w *= self.deriv(g.points)
+        return self.transform(g.points), w, tuple(np.sort(self.transform(np.array(g.domain))))
+    rt.BaseTransform.transform_1d_grid = _t1d(body)
+
+
+@_mutant("a domain that is not a tuple (list, array) is rejected")
+def _m19(rt):
+    def body(self, g):
+        if not isinstance(g.domain, tuple):
+            raise TypeError("domain must be a tuple")
+        return self.transform(g.points), self.deriv(g.points) * g.weights, tuple(np.sort(self.transform(np.array(g.domain))))
+    rt.BaseTransform.transform_1d_grid = _t1d(body)
+
+
+@_mutant("LinearFinite.deriv builds its array with the dtype of the parameters (integer rmin, rmax truncate (rmax-rmin)/2)")
+def _m20(rt):
+    from numbers import Number
+
+    def bad(self, x):
+        if isinstance(x, Number):
+            return (self._rmax - self._rmin) / 2
+        return np.full(x.size, (self._rmax - self._rmin) / 2, dtype=np.result_type(self._rmax, self._rmin))
+    rt.LinearFiniteRTransform.deriv = bad
+
+
+@_mutant("the default of trim_inf becomes False (Becke)")
+def _m21(rt):
+    orig = rt.BeckeRTransform.__init__
+
+    def bad(self, rmin, R, trim_inf=False):
+        orig(self, rmin, R, trim_inf)
+    rt.BeckeRTransform.__init__ = bad
+
+
+@_mutant("inferred b = number of points - 1 (right for UniformInteger grids only)")
+def _m22(rt):
+    def bad(self, x):
+        if self.b is None:
+            self._b = float(np.size(x) - 1)
+            if self._b < 1e-16:
+                raise ValueError("b")
+    for c in (rt.LinearInfiniteRTransform, rt.ExpRTransform, rt.PowerRTransform):
+        c.set_maximum_parameter_b = bad
+
+
+@_mutant("Becke.deriv is nan at the singular end x = 1 (0/0 in a rewritten formula)")
+def _m23(rt):
+    orig = rt.BeckeRTransform.deriv
+
+    def bad(self, x):
+        d = orig(self, x)
+        if isinstance(d, np.ndarray):
+            d = np.where(np.asarray(x) == 1, np.nan, d)
+        return d
+    rt.BeckeRTransform.deriv = bad
+
+
+@_mutant("the domain check accepts only grids on the WHOLE domain of the map (sub-interval grids, chains rejected)")
+def _m24(rt):
+    from grid.basegrid import OneDGrid
+
+    def t1d(self, oned_grid):
+        if float(oned_grid.domain[0]) != float(self.domain[0]) or float(oned_grid.domain[1]) != float(self.domain[1]):
+            raise ValueError("domain")
+        return OneDGrid(self.transform(oned_grid.points), self.deriv(oned_grid.points) * oned_grid.weights,
+                        tuple(np.sort(self.transform(np.array(oned_grid.domain)))))
+    rt.BaseTransform.transform_1d_grid = t1d
+
+
+@_mutant("only library rule classes keep their domain: the domain of a plain OneDGrid (hand-made, or itself a transformed grid) is replaced by the map's")
+def _m25(rt):
+    from grid.basegrid import OneDGrid
+
+    def body(self, g):
+        dom = g.domain if type(g) is not OneDGrid or g.size > 6 else self.domain
+        return self.transform(g.points), self.deriv(g.points) * g.weights, tuple(np.sort(self.transform(np.array(dom, dtype=float))))
+    rt.BaseTransform.transform_1d_grid = _t1d(body)
+
+
 def selftest(tier: str) -> int:
     import grid.rtransform as rt
-    wd = tlc.scratch(f"{PROP}-selftest")
-    modelled = model("quick", wd)
+    modelled, (_, ext) = models("quick", f"{PROP}-selftest")
+    import grid.basegrid as bg
     classes = [getattr(rt, c) for c in dir(rt) if isinstance(getattr(rt, c), type) and getattr(rt, c).__module__ == rt.__name__]
+    classes += [bg.Grid, bg.OneDGrid]
     saved = {c: dict(vars(c)) for c in classes}
     killed, missed = [], []
     for name, patch in MUTANTS.items():
         patch(rt)
         try:
             rep = Report(PROP, "quick", "model_checking")
-            check(rep, "quick", modelled)
+            check(rep, "quick", modelled, ext)
             new = sorted({v["key"] for v in rep.violations if rep._match_known(v["key"]) is None})
         finally:
             for c, d in saved.items():
